@@ -136,6 +136,52 @@ CHECKS = {
          "program families generated; there is no substitute oracle",
          "runtime monitoring with the kernel verifier as sanitizer/oracle",
          "4 C05"),
+ "C11": ("exploration",
+         "Random datagram sequences (all commands, all addressing forms, "
+         "lengths solved onto the size and count boundaries, counters) are "
+         "appended to the real Packet / SterilePacket; an independent frame "
+         "parser written from the EtherCAT layout checks header length, "
+         "type, every datagram header, data and counter positions against "
+         "what append returned, the 'more' chain, padding, the maximum "
+         "size, rejection without side effects and the sterile copy; "
+         "icontract post-conditions on the real append are evaluated on "
+         "every call (count reported).",
+         "the parser is the trusted base; zero-datagram frames excluded",
+         "runtime contracts (icontract) + independent parser as oracle",
+         "4 C11"),
+ "C13": ("exploration",
+         "The real EtherCat.roundtrip is called with random combinations of "
+         "format strings, values, trailing read-only formats and raw data "
+         "(None / bytes incl. empty / zero count); an echo consumer on the "
+         "send queue records the payload and answers with random bytes; "
+         "payload and return value are compared with struct.pack/unpack.",
+         "small input space sampled at random (24000 calls per quick run)",
+         "runtime monitoring at the queue boundary with a struct-based "
+         "oracle", "4 C13"),
+ "C27": ("exploration",
+         "ALL histories up to length 3 (quick) / 4 (thorough) of target "
+         "changes, switch readings and clock advances around the moving "
+         "time, for two moving times and both safe states, through the real "
+         "Valve.update/reset bound to a real slow sync-group frame with a "
+         "virtual clock, compared step by step with a reference automaton "
+         "of the statement.",
+         "exhaustive within the stated bound only; 'has not elapsed' read "
+         "as elapsed < movingTime",
+         "exhaustive bounded history enumeration against a reference "
+         "automaton", "4 C27"),
+ "C28": ("exploration",
+         "The real Serial.update on an EL6002 channel of a real sync-group "
+         "frame runs against a terminal-side handshake model with accept "
+         "delays in both directions (all patterns up to the bound plus "
+         "seeded random ones) while an application writes random chunks "
+         "and drains the receive pipe; a trace automaton over the "
+         "request/accept bits and strings seen each cycle checks one toggle "
+         "per string, strings unchanged until accepted, and exact byte "
+         "streams on both pipes.",
+         "terminal handshake modelled from the EL6002 documentation; "
+         "bounded delays and transfer counts",
+         "online trace-specification checker over a simulated peer",
+         "4 C28"),
 }
 
 NOT_YET = "check not built yet in this round (design in DESIGN.md section 4)"
